@@ -252,6 +252,16 @@ static void run_codec(Rng &r)
     size_t l = 0;
     { RT rt; l = rtosc_amessage(buf.data(), buf.size(), m.addr.c_str(), m.types.c_str(), ap.data()); }
     judge("build_amessage");
+    // the default reply/broadcast forwarding with payloads up to and beyond its 8 KiB staging buffer
+    {
+        static Sink sink;
+        static std::string big(12000, 'x');
+        size_t n = r.chance(0.5) ? (size_t)r.range(0, 300) : (size_t)r.range(7900, 11000);
+        char saved = big[n]; big[n] = 0;
+        { RT rt; sink.reply("/a/reply", "s", big.c_str()); sink.broadcast("/a/broadcast", "is", 7, big.c_str()); sink.reply("/a/blob", "b", (int)n, big.data()); }
+        big[n] = saved;
+        judge(n > 7000 ? "reply_forwarding_large" : "reply_forwarding_small");
+    }
     if(va_ok) { { RT rt; vp.call(buf.data(), buf.size(), m); } judge("build_vmessage"); }
     if(va_ok && m.ncarry() <= 3) { { RT rt; gen::call_true_varargs(buf.data(), buf.size(), m, ap); } judge("build_message_varargs"); }
     { RT rt; rtosc_amessage(NULL, 0, m.addr.c_str(), m.types.c_str(), ap.data()); if(va_ok) vp.call(NULL, 0, m); } judge("size_query");
